@@ -65,6 +65,21 @@ def matrices(draw, n, m, kind="int", distinct=False):
     rows = [[(0.0 if cells[i * m + j][0] < thr or i == zero_row
               or j == zero_col else cells[i * m + j][1])
              for j in range(m)] for i in range(n)]
+    if kind in ("int", "dyadic", "small", "wild") and zr == 2:
+        # a vector that is not empty although its entries sum to exactly 0
+        if m >= 2 and draw(st.booleans()):
+            i = draw(st.integers(0, n - 1))
+            j1 = draw(st.integers(0, m - 2))
+            x = cells[i * m + j1][1]
+            rows[i] = [0.0] * m
+            rows[i][j1], rows[i][j1 + 1] = x, -x
+        elif n >= 2:
+            j = draw(st.integers(0, m - 1))
+            i1 = draw(st.integers(0, n - 2))
+            x = cells[i1 * m + j][1]
+            for r in rows:
+                r[j] = 0.0
+            rows[i1][j], rows[i1 + 1][j] = x, -x
     return rows
 
 
@@ -108,7 +123,8 @@ def id_text(kind):
                                   blacklist_characters=bad),
                     min_size=1, max_size=10),
             st.sampled_from(["1", "2.5", "1e5", "nan", "inf", "-3", "0",
-                             "a b", "x#y", "None"]))
+                             "a b", "x#y", "None", "50%", "a%%b", "%s",
+                             "x: y", "%(k)s", "100%d"]))
         return body.map(_tsv_clean).filter(lambda s: len(s) > 0)
     raise ValueError(kind)
 
